@@ -27,7 +27,7 @@ import (
 func TestMain(m *testing.M) {
 	logrus.SetOutput(io.Discard)
 	logrus.SetLevel(logrus.PanicLevel)
-	ev.C().Rule("rapid state machine over a real CachedCloudProvider with a scripted CloudProvider (per call: full / partial / empty / error with partial data; batch limit 1, 2 or 5; lookup limiter unlimited or 10^6/s with burst 1, 2 or 15) and an owned refresh ticker: actions submit(1..3 sources) / peek / tick(real now + k*10min) / emit / tickSlowProvider (refresh whose provider calls block) / release (the blocked calls return, possibly after the entries were evicted as idle). TTL 15 min, negative TTL 5 min, idle 25 min so that every comparison has >= 5 min of margin against seconds of real drift. Oracle: answer-per-request multiset, cache model (never forgets good data), refresh and eviction sets, cache-size gauges. Non-trivial = a success followed by a failed refresh of the same source, or >= 2 sources in one provider call, or a refresh answer arriving after its entry was evicted")
+	ev.C().Rule("rapid state machine over a real CachedCloudProvider with a scripted CloudProvider (per call: full / partial / empty / error with partial data; batch limit 1, 2 or 5; lookup limiter unlimited or 10^6/s with burst 1, 2 or 15) and an owned refresh ticker: actions submit(1..3 sources) / peek / tick(real now + k*10min) / emit / tickSlowProvider (refresh whose provider calls block) / release (the blocked calls return, possibly after the entries were evicted as idle) / idleAfterFailedRefresh (real-time bracketing of last use and failed refresh, then a tick between the two idle deadlines). TTL 15 min, negative TTL 5 min, idle 25 min so that every comparison has >= 5 min of margin against seconds of real drift. Oracle: answer-per-request multiset, cache model (never forgets good data), refresh and eviction sets, cache-size gauges. Non-trivial = a success followed by a failed refresh of the same source, or >= 2 sources in one provider call, or a refresh answer arriving after its entry was evicted")
 	vt.Main(m)
 }
 
@@ -64,6 +64,7 @@ type provider struct {
 	gen      int
 	bigBatch bool
 	hold     chan struct{} // non-nil: calls block on entry until it is closed (a slow provider)
+	force    int           // >= 0: outcome of every call while set (overrides the script)
 }
 
 func (p *provider) Name() string           { return "scripted" }
@@ -83,6 +84,9 @@ func (p *provider) Instance(ctx context.Context, ips ...gostatsd.Source) (map[go
 	p.mu.Lock()
 	defer p.mu.Unlock()
 	o := p.script[len(p.calls)%len(p.script)]
+	if p.force >= 0 {
+		o = outcome(p.force)
+	}
 	p.calls = append(p.calls, append([]gostatsd.Source(nil), ips...))
 	if len(ips) >= 2 {
 		p.bigBatch = true
@@ -118,7 +122,7 @@ type entry struct {
 
 func TestInstanceCacheHistories(t *testing.T) {
 	rapid.Check(t, func(t *rapid.T) {
-		prov := &provider{max: rapid.SampledFrom([]int{1, 2, 5}).Draw(t, "max-batch")}
+		prov := &provider{max: rapid.SampledFrom([]int{1, 2, 5}).Draw(t, "max-batch"), force: -1}
 		prov.script = rapid.SliceOfN(rapid.SampledFrom([]outcome{full, full, partial, empty, failPartial, failEmpty}), 8, 8).Draw(t, "provider-script")
 		clk := rig.NewOwnedClock(time.Now())
 		// the lookup rate limiter: unlimited, or a fast finite one whose burst is below, at or above the provider's batch limit
@@ -284,6 +288,7 @@ func TestInstanceCacheHistories(t *testing.T) {
 		}
 
 		heldExpected := 0
+		idleAfterRefresh := false
 		var heldSet []gostatsd.Source
 		heldBefore := 0
 		evictedWhileHeld := false
@@ -341,6 +346,48 @@ func TestInstanceCacheHistories(t *testing.T) {
 				emitBarrier()
 				heldExpected = len(refreshSet)
 				heldSet = refreshSet
+				checkPeeks()
+			},
+			"idleAfterFailedRefresh": func(t *rapid.T) {
+				// the idle period counts from an entry's last use, not from its last refresh: entries are used at real time
+				// <= b, a refresh that finds nothing is handled at real time >= c, and a tick stamped between b+idle and
+				// c+idle must evict them all
+				if held != nil || len(model) == 0 {
+					t.Skip("needs cached entries and a responsive provider")
+				}
+				checkPeeks()
+				b := time.Now()
+				time.Sleep(30 * time.Millisecond)
+				c := time.Now()
+				var refreshSet []gostatsd.Source
+				for s := range model {
+					refreshSet = append(refreshSet, s)
+				}
+				prov.mu.Lock()
+				prov.force = int(failEmpty)
+				prov.mu.Unlock()
+				history = append(history, "idleAfterFailedRefresh: failing refresh of everything, then a tick just past the idle period of the last use")
+				select {
+				case tick <- c.Add(20 * time.Minute):
+				case <-time.After(30 * time.Second):
+					fail("C12:tick-not-taken", "refresh tick not taken within 30s")
+				}
+				emitBarrier()
+				expected += len(refreshSet)
+				waitAnswers()
+				prov.mu.Lock()
+				prov.force = -1
+				prov.mu.Unlock()
+				select {
+				case tick <- b.Add(idle).Add(c.Sub(b) / 2):
+				case <-time.After(30 * time.Second):
+					fail("C12:tick-not-taken", "refresh tick not taken within 30s")
+				}
+				emitBarrier()
+				for s := range model {
+					delete(model, s)
+				}
+				idleAfterRefresh = true
 				checkPeeks()
 			},
 			"release": func(t *rapid.T) {
@@ -461,6 +508,9 @@ func TestInstanceCacheHistories(t *testing.T) {
 		}
 		if prov.bigBatch {
 			labels = append(labels, "multi-source-provider-call")
+		}
+		if idleAfterRefresh {
+			labels = append(labels, "idle-eviction-after-failed-refresh")
 		}
 		if lateAnswerAfterEviction {
 			labels = append(labels, "refresh-answer-after-idle-eviction")
